@@ -121,6 +121,32 @@ Theorem C01_swap_sound :
 Proof. exact swap_sound. Qed.
 Print Assumptions C01_swap_sound.
 
+(* ---- try_swap_site at the level of the whole operator: bonds pre ++ [b2; b3] ++ post become
+        pre ++ [nb2; nb3] ++ post and every string keeps its coefficient with the operators of the two
+        exchanged sites written in the new site order *)
+Theorem C01_swap_mpo_sound :
+  forall (R : CRing) (iszero : R -> bool), (forall x, iszero x = true -> x = r0 R) ->
+  forall (nprim : nat) (pre post : list (bond R)) (b2 b3 nb2 nb3 : bond R) (ws : list (wit R)),
+  swap_site R iszero nprim b2 b3 ws = Some (nb2, nb3) ->
+  sweep_ok R iszero ws (dedup R iszero (swap_table R nprim b2 b3)) ->
+  forall (spre spost : list nat) (o1 o2 : nat), length spost = length post ->
+    coeff R (pre ++ nb2 :: nb3 :: post) (spre ++ o2 :: o1 :: spost)
+    = coeff R (pre ++ b2 :: b3 :: post) (spre ++ o1 :: o2 :: spost).
+Proof. exact swap_mpo_sound. Qed.
+Print Assumptions C01_swap_mpo_sound.
+
+(* ---- the QR hypothesis in the form the code documents, Gamma[:, p] = q . r  (p onto the columns):
+        it implies the un-pivoted form used by C01_one_site_qr_sound with r2 = r[:, argsort p] *)
+Theorem C01_qr_pivoted_exact :
+  forall (R : CRing) (t : table R) (qrows qcols : list key) (q r : mat R) (p : list nat) (rank : nat),
+  (forall k, k < length qcols -> In k p) ->
+  (forall i rkey m, In (i, rkey) (enum_from 0 qrows) -> m < length p ->
+     gamma R t rkey (nth (nth m p 0) qcols [])
+     = SymMpo.lsum R (seq 0 rank) (fun l => rmul R (mget R q i l) (mget R r l m))) ->
+  qr_exact R t qrows qcols q (unpivot R r p (length qcols)) rank.
+Proof. exact qr_pivoted_exact. Qed.
+Print Assumptions C01_qr_pivoted_exact.
+
 (* ---- the instances the tie executes satisfy the contract of the zero test *)
 Theorem C01_instances_ok :
   (forall x : ZRing, z_zero x = true -> x = r0 ZRing) /\ (forall x : GiRing, gi_zero x = true -> x = r0 GiRing).
